@@ -66,6 +66,9 @@ def run(run):
             chains = c15._r1_chains(sub, members)
             c15._r2_conventions(sub, members, chains)
     _common.delegate(run, "C06.R7", "C15", conv, only_rules={"C15.R2"}, note="premise of 'updating mode writes the sampler's values'")
+    # "a file for each tile": the file a tile is written to is the one named after its own position, under every naming scheme
+    from . import C17 as c17
+    _common.delegate(run, "C06.R1", "C17", lambda sub: c17._r1_paths(sub, "C17.R1"), only_rules={"C17.R1"}, note="premise: the tile's file is named after its own position")
     # the pixel centres handed to the sampler are those of *this* tile in *this* coordinate system: no remembered grid
     # keyed by less than what determines it
     from . import memo
